@@ -297,6 +297,22 @@ func vfC18Case(env *vfEnv, part *vfPart, i int) {
 		}
 	}
 
+	// ---- overlapping reconnect: the client opens its new connection (same client
+	// id) BEFORE the server has seen the end of the old one (half-open or slowly
+	// closing socket); the old connection's end must not undo the new registration
+	var s2 *vfBinConn
+	overlap := reconnect && !text && rng.Chance(40)
+	if overlap {
+		s2 = srv.dialBinary("subject-reconnected", 2)
+		s2.nextReq = 1 << 32
+		defer s2.close()
+		if err := s2.init(clientS); err != nil {
+			fail("overlapping reconnect init", err)
+			return
+		}
+		part.Add("reconnects", 1)
+		part.Add("reconnects_before_the_old_connection_ended", 1)
+	}
 	// ---- end the connection
 	switch {
 	case endMode == 0:
@@ -352,8 +368,7 @@ func vfC18Case(env *vfEnv, part *vfPart, i int) {
 	part.Add("connections_ended", 1)
 
 	// ---- reconnect under the same client id
-	var s2 *vfBinConn
-	if reconnect {
+	if reconnect && !overlap {
 		s2 = srv.dialBinary("subject-reconnected", 2)
 		s2.nextReq = 1 << 32 // its own RequestIds never collide with the first life
 		defer s2.close()
